@@ -111,3 +111,56 @@ class PartitionSlot(LoopBodyContract):
         prev = lambda j: z3.If(j > 0, T(j - 1), z3.RealVal(EPOCH_1800))
         latent = z3.BoolVal(name == "latent")
         return [Cl("latent_iff_strictly_within_latency", z3.And(*[z3.Implies(is_slot(j), latent == (t - prev(j) < lat)) for j in wit]))]
+
+
+from pyvc.contract import Contract
+
+
+class TransmitterNextSteady(Contract):
+    """C04 (exactly once, in grid order): outside the first step of a non-markov episode (whose warm-up concatenation over dict
+    items is only exercised by the bounded shell), `_next` visits the grid points of the episode strictly in order, one per call:
+    it returns exactly the two partition lists keyed by steps[step_nr], advances step_nr by one, and raises StopIteration iff the
+    steps are exhausted (nothing returned twice, nothing skipped)."""
+    relpath, qual = REL, "Transmitter._next"
+    props = ("C04",)
+
+    def pre_state(self, I):
+        n = I.int("n_steps")
+        I.assume(n >= 0)
+        S = I.func("S", IntS, RealS)
+        steps = sym_seq(I, lambda i: Tm(S(i)), n, "list")
+        tr = I.new_rec("Transmitter", _steps=steps, _step_nr=In(I.int("step_nr")), _markov_reset=I.bool("markov_reset"), _warmup=None,
+                       _partition_latent=PartitionMap("latent"), _partition_nonlatent=PartitionMap("nonlatent"),
+                       _current_time=I.tm("current_time"))
+        return {"self": tr, "_S": S, "_n": n}
+
+    def requires(self, c):
+        f = c.I.heap[c.self.oid]
+        k = f["_step_nr"].v
+        return [Cl("step_counter_nonneg", k >= 0),
+                Cl("not_the_warm_up_step", z3.Or(k >= 1, tobool(f["_markov_reset"])))]
+
+    def raises(self, c):
+        f = c.I.heap[c.self.oid]
+        return {"StopIteration": {"when": f["_step_nr"].v >= c.args["_n"], "post": []}}
+
+    def modifies(self, c):
+        return [("field", c.self, "_current_time"), ("field", c.self, "_step_nr")]
+
+    def ensures(self, c):
+        f0, f1 = c.old[c.self.oid], c.heap()[c.self.oid]
+        S = c.args["_S"]
+        k = f0["_step_nr"].v
+        r = c.result
+        shape = isinstance(r, tuple) and len(r) == 2 and all(isinstance(x, PartitionList) for x in r)
+        out = [Cl("advances_by_one", f1["_step_nr"].v == k + 1),
+               Cl("clock_is_the_visited_grid_point", lift_fl(f1["_current_time"]).v == S(k)),
+               Cl("returns_two_partition_lists", z3.BoolVal(bool(shape)))]
+        if shape:
+            out += [Cl("latent_batch_of_this_grid_point", z3.And(z3.BoolVal(r[0].name == "latent"), r[0].key == S(k))),
+                    Cl("nonlatent_batch_of_this_grid_point", z3.And(z3.BoolVal(r[1].name == "nonlatent"), r[1].key == S(k)))]
+        return out
+
+    def perturbed(self, c):
+        f0, f1 = c.old[c.self.oid], c.heap()[c.self.oid]
+        return [Cl("does_not_advance", f1["_step_nr"].v == f0["_step_nr"].v)]
